@@ -52,6 +52,8 @@ type historicalUsageCalculator struct {
 	queue             *queue.SqQueue
 	resourceTypes     sets.String
 	getNodeFunc       utilnode.ActiveNode
+	// ratio is the overSubscription ratio (percent) the reported amount is capped with, 0 means no cap.
+	ratio int
 }
 
 // NewCalculator return overSubscription reporter by algorithm
@@ -63,6 +65,7 @@ func NewCalculator(config *config.Configuration, mgr *metriccollect.MetricCollec
 		queue:             sqQueue,
 		resourceTypes:     sets.NewString(),
 		getNodeFunc:       config.GetNode,
+		ratio:             config.GenericConfiguration.OverSubscriptionRatio,
 	}
 }
 
@@ -111,6 +114,7 @@ func (r *historicalUsageCalculator) preProcess() {
 	if overSubRes == nil {
 		return
 	}
+	r.capByAllocatable(nodeCopy, overSubRes)
 	customizationTypes := r.getOverSubscriptionTypes(nodeCopy)
 	for _, resType := range apis.OverSubscriptionResourceTypes {
 		if !customizationTypes[resType] {
@@ -119,6 +123,23 @@ func (r *historicalUsageCalculator) preProcess() {
 	}
 	eventQueue := r.eventQueueFactory.EventQueue(string(framework.NodeResourcesEventName)).GetQueue()
 	eventQueue.Add(framework.NodeResourceEvent{MillCPU: overSubRes[v1.ResourceCPU], MemoryBytes: overSubRes[v1.ResourceMemory]})
+}
+
+// capByAllocatable keeps the reported amount within ratio percent of the node's current allocatable:
+// the weighted history may still hold samples taken while the allocatable was larger.
+func (r *historicalUsageCalculator) capByAllocatable(node *v1.Node, overSubRes apis.Resource) {
+	if r.ratio <= 0 {
+		return
+	}
+	limits := apis.Resource{
+		v1.ResourceCPU:    node.Status.Allocatable.Cpu().MilliValue() * int64(r.ratio) / 100,
+		v1.ResourceMemory: node.Status.Allocatable.Memory().Value() * int64(r.ratio) / 100,
+	}
+	for _, resType := range apis.OverSubscriptionResourceTypes {
+		if overSubRes[resType] > limits[resType] {
+			overSubRes[resType] = limits[resType]
+		}
+	}
 }
 
 // computeOverSubRes calculate overSubscription resources
